@@ -26,7 +26,7 @@ import (
 // ---- C04 / C06 / C07: connection life cycles, shutdown, descriptor ownership -------------
 
 var lifePlans = []string{
-	"peerFIN", "peerRST", "peerHalf", "actOpen", "actTraffic", "connClose", "closeCB", "loopClose", "loopCloseMore",
+	"peerFIN", "peerRST", "peerHalf", "backpressure", "actOpen", "actTraffic", "connClose", "closeCB", "loopClose", "loopCloseMore",
 	"loopCloseOther", "writeFail", "shutdown", "raceFINClose", "raceActRST", "quiet", "stale", "openReplyClose",
 }
 
@@ -184,6 +184,11 @@ func (s *lifeScenario) onTraffic(cs *connState, c gnet.Conn) gnet.Action {
 				}
 				s.key(s.c.class() + "|loopCloseOther-executed")
 			}
+		}
+	case "backpressure":
+		if n == 1 {
+			// the peer does not read: most of this stays in the outbound buffer until the connection ends
+			_, _ = c.Write(make([]byte, 3<<20))
 		}
 	case "writeFail":
 		if n >= 1 && !d.closedInCallback.Load() {
@@ -536,6 +541,8 @@ func runLifeCase(c cfg, seed uint64, o lifeOpts, keys map[string]struct{}) (eval
 				send("mmm")
 				setLinger0(conn)
 				closePeer(conn)
+			case "backpressure":
+				send("b") // the handler answers with 3 MiB which this peer never reads; it stays open until the engine ends
 			case "quiet", "shutdown":
 				// stays open and silent until the end of the case
 				if pr.Intn(3) == 0 { // a Wake on an open idle connection = exactly one OnTraffic
@@ -693,12 +700,20 @@ func runLifeCase(c cfg, seed uint64, o lifeOpts, keys map[string]struct{}) (eval
 	if !returned {
 		// bounded: two identical goroutine dumps => deadlock
 		d1 := vlib.NormalizeDump(vlib.GoroutineDump())
+		cb1, calls1, bytes1 := mon.callbacks.Load(), shimCalls(), shimBytes()
 		time.Sleep(2 * time.Second)
 		d2 := vlib.NormalizeDump(vlib.GoroutineDump())
+		cb2, calls2, bytes2 := mon.callbacks.Load(), shimCalls(), shimBytes()
 		if !life.waitDone(time.Millisecond) {
 			if d1 == d2 {
 				res.Violate("C06 Run did not return after shutdown request source="+o.shutdownFrom+" moment="+o.moment, fmt.Sprintf("config %s: Run has not returned %.1fs after shutdown was requested and two goroutine dumps 2s apart are identical (deadlock)", c, time.Since(t0).Seconds()),
 					map[string]any{"config": c.String(), "events": mon.tail(40), "dump": trimDump(d2)})
+			} else if vsys.Shimmed && cb1 == cb2 && bytes1 == bytes2 && calls2-calls1 > 20000 {
+				// livelock: the framework keeps issuing system calls (all failing or empty) while no callback runs and not a
+				// single byte moves - a state that cannot end by itself
+				res.Violate("C06 Run did not return after shutdown request (livelock) source="+o.shutdownFrom, fmt.Sprintf("config %s: Run has not returned %.1fs after shutdown was requested; within 2s the framework made %d system calls without running a callback or moving a byte: %v", c, time.Since(t0).Seconds(), calls2-calls1, vsys.LogTail(6)),
+					map[string]any{"config": c.String(), "events": mon.tail(40), "shim_log": vsys.LogTail(30)})
+				res.Finish() // the spinning engine would distort every later case of this process
 			} else {
 				res.Inconc("life %s: Run not returned after %.1fs (source %s), goroutines still moving", c, time.Since(t0).Seconds(), o.shutdownFrom)
 			}
@@ -869,4 +884,18 @@ func dialPeerPre(network, addr string, pre *sync.Map) (net.Conn, error) {
 		}
 	}
 	return nil, errors.New("dialPeerPre: could not connect from a reserved port")
+}
+
+func shimCalls() (n int64) {
+	for i := range vsys.Calls {
+		n += vsys.Calls[i].Load()
+	}
+	return
+}
+
+func shimBytes() (n int64) {
+	for _, fi := range vsys.Owned() {
+		n += fi.Rd + fi.Wr
+	}
+	return
 }
